@@ -15,7 +15,7 @@ def run(ctx):
     # extrapolated sweep in Dirichlet mode proved on the way)
     # C10c: the strict interpreter the driver runs is `Cycle.exec`; the exact discrete solution is a fixed point of the CONCRETE two-level
     # cycle (assembled line matrices, LDL^T line solves, sparse LU, bilinear transfers) — C10 instantiated with the code-level models
-    ctx.prove(extra_modules=["GMGProofs.Props.C10c", "GMGProofs.Props.C10d", "GMGProofs.Props.C10e", "GMGProofs.Props.C10g", "GMGProofs.Props.C10h", "GMGProofs.Props.C10i", "GMGProofs.Props.C10f"])
+    ctx.prove(extra_modules=["GMGProofs.Props.C10c", "GMGProofs.Props.C10d", "GMGProofs.Props.C10e", "GMGProofs.Props.C10g", "GMGProofs.Props.C10h", "GMGProofs.Props.C10i", "GMGProofs.Props.C10f", "GMGProofs.Props.C10j"])
     h = ctx.build_harness("h_solver")
     ctx.pipe([h, "cycle", "2" if ctx.tier == "quick" else "12"], "trace", label="cycle-traces")
     # the whole cycle inside the model (GMGModel/Concrete.lean: the control-flow IR interpreted over the code-level models of
